@@ -399,7 +399,8 @@ fn unhex(s: &str) -> Vec<u8> {
 fn describe(job: &str, ord: u64, b: &[u8]) -> J {
     let stack = if job == "nest2" { "2MiB" } else { "8MiB" };
     if b.len() > 300 {
-        json!({"job": job, "ordinal": ord, "len": b.len(), "prefix": String::from_utf8_lossy(&b[..40]), "stack": stack, "generated": true})
+        let tier = if THOROUGH.load(std::sync::atomic::Ordering::Relaxed) { "thorough" } else { "quick" };
+        json!({"job": job, "ordinal": ord, "tier": tier, "len": b.len(), "prefix": String::from_utf8_lossy(&b[..40]), "stack": stack, "generated": true})
     } else {
         json!({"hex": hex(b), "text": String::from_utf8_lossy(b), "stack": stack})
     }
@@ -480,7 +481,9 @@ pub fn replay(case: &J) -> Verdict {
     };
     let c2 = case.clone();
     let d = move |_o: u64| c2.clone();
-    let job = Job { prop: "C09", tier: "thorough", job: &jobname, n: 1, chunk: 1, env: vec![], exe: None, describe: &d };
+    // generated inputs are numbered per tier
+    let tname = case["tier"].as_str().unwrap_or("thorough").to_string();
+    let job = Job { prop: "C09", tier: &tname, job: &jobname, n: 1, chunk: 1, env: vec![], exe: None, describe: &d };
     let l = run_job(&job);
     match l.fails.values().next() {
         Some(f) => Err((f.sig.clone(), if f.sig.starts_with("crash") || f.sig == "hang" { f.sig.clone() } else { f.detail.clone() })),
